@@ -140,7 +140,9 @@ DidEvents(s) ==
 SuperEvents(s) ==
     {[E0 EXCEPT !.kind = "Delegate", !.creator = d, !.val = "v1", !.amount = m] : d \in {"a02", "a04", "a07"}, m \in {10, 250000, 500000, 200000000}}
     \cup {[E0 EXCEPT !.kind = "Undelegate", !.creator = x.d, !.val = x.v, !.amount = m] :
-            x \in {y \in Rng(s.delegs) : y.d # "vo1"}, m \in {x2 \in {10, 250000, 500000} : TRUE}}
+            x \in {y \in Rng(s.delegs) : y.d \notin {"vo1", "vo2"}}, m \in {10, 250000, 500000}}
+    \cup {[E0 EXCEPT !.kind = "Redelegate", !.creator = x.d, !.val = x.v, !.val2 = IF x.v = "v1" THEN "v2" ELSE "v1", !.amount = m] :
+            x \in {y \in Rng(s.delegs) : y.d \notin {"vo1", "vo2"}}, m \in {250000}}
     \cup {[E0 EXCEPT !.kind = "Reset", !.creator = "a02", !.status = sx, !.val = v] : sx \in {15, 13}, v \in {"", "v1"}}
     \cup {[E0 EXCEPT !.kind = "AddVstorage", !.creator = "a02", !.size = 1000000],
           [E0 EXCEPT !.kind = "RemoveVstorage", !.creator = "a02", !.size = 1000000]}
